@@ -61,7 +61,7 @@ func waitGap(us int) {
 func genDelayCase(rng *rand.Rand, kind string) dcase {
 	c := dcase{Kind: kind, Seed: rng.Int63()}
 	c.DelayUs = []int{0, 0, 1, 50, 1000, 10000, 30000}[rng.Intn(7)]
-	if kind == "router" || kind == "router2" {
+	if kind == "router" || kind == "router2" || kind == "routerfilter" {
 		c.JitterUs = []int{0, 0, 200}[rng.Intn(3)]
 	}
 	senders := 1
@@ -196,6 +196,40 @@ func runDelayCase(c dcase, r *res.Result) (string, string) {
 		parkFn = "vnet.(*Router).Start.func1"
 		delay *= 2
 		nat = true
+	case "routerfilter":
+		// a delay filter behind a router with the same minimum delay: the filter's delay counts from the datagram's arrival
+		// at the filter, i.e. from the moment the router released it, so the end-to-end lower bound is twice the delay
+		rt, err := vnet.NewRouter(&vnet.RouterConfig{CIDR: "10.9.0.0/24", MinDelay: delay, MaxJitter: time.Duration(c.JitterUs) * time.Microsecond, LoggerFactory: vn.Silent()})
+		if err != nil {
+			return "delay:ctor", err.Error()
+		}
+		f, err := vnet.NewDelayFilter(sink, delay)
+		if err != nil {
+			return "delay:ctor", err.Error()
+		}
+		ctx, cancel := context.WithCancel(context.Background())
+		go func() {
+			defer func() {
+				if p := recover(); p != nil {
+					panicCh <- fmt.Sprintf("%v\n%s", p, trimStack(string(debug.Stack())))
+				}
+			}()
+			f.Run(ctx)
+		}()
+		src := &vnet.VerifNIC{StaticIPs: []net.IP{net.ParseIP("10.9.0.1").To4()}, OnChunk: func(vnet.Chunk) {}}
+		if err := rt.AddNet(src); err != nil {
+			return "delay:ctor", err.Error()
+		}
+		if err := rt.AddNet(f); err != nil {
+			return "delay:ctor", err.Error()
+		}
+		if err := rt.Start(); err != nil {
+			return "delay:ctor", err.Error()
+		}
+		inject = func(ch vnet.Chunk) { src.Send(ch) }
+		stop = func() { cancel(); _ = rt.Stop() }
+		parkFn = "vnet.(*Router).Start.func1"
+		delay *= 2
 	case "router":
 		rt, err := vnet.NewRouter(&vnet.RouterConfig{CIDR: "10.9.0.0/24", MinDelay: delay, MaxJitter: time.Duration(c.JitterUs) * time.Microsecond, LoggerFactory: vn.Silent()})
 		if err != nil {
@@ -479,6 +513,9 @@ func runDelay(tier string, seed int64, shard, nshard int, r *res.Result, replay 
 			kind = "router"
 			if i%6 == 5 {
 				kind = "router2"
+			}
+			if i%12 == 8 {
+				kind = "routerfilter"
 			}
 		}
 		c := genDelayCase(rng, kind)
